@@ -136,6 +136,35 @@ pub fn test_additive(c: &AddCase, ctx: &mut CaseCtx) -> Result<(), String> {
             }
         }
     }
+    // unset counts as off: the rules outside S absent, null or false at random (a sparse
+    // configuration, as direct library users build it) give the same lints as all of them false
+    {
+        let mut entries: Vec<(String, Option<bool>)> = vec![];
+        for k in keys {
+            if s.contains(&k) {
+                entries.push((k.clone(), Some(true)));
+            } else {
+                match mix(c.part_salt ^ 0x5eed, h64(k.as_str())) % 3 {
+                    0 => {}
+                    1 => entries.push((k.clone(), None)),
+                    _ => entries.push((k.clone(), Some(false))),
+                }
+            }
+        }
+        let sparse = crate::core::catch(|| lint_with_config(&c.text, config_from(&entries)));
+        if let Ok(sp) = sparse {
+            let sp = sorted_keys(&sp);
+            ctx.class("sparse_configuration_compared");
+            if sp != whole {
+                let only_dense: Vec<&String> = whole.iter().filter(|x| !sp.contains(x)).take(2).collect();
+                let only_sparse: Vec<&String> = sp.iter().filter(|x| !whole.contains(x)).take(2).collect();
+                return Err(format!(
+                    "the same {} rules switched on give other lints on {:?} when the remaining rules are unset / null instead of false: only with all others false {:?}; only with the sparse configuration {:?}",
+                    s.len(), c.text, only_dense, only_sparse
+                ));
+            }
+        }
+    }
     // all-off produces nothing
     let none = run(&[]);
     if !none.is_empty() {
